@@ -440,19 +440,22 @@ func CreateTemp(dir, pattern string) (*File, error) {
 	if _, _, err := pre("createtemp", filepath.Join(dir, prefix+"*"+suffix), "", true, 0); err != nil {
 		return nil, err
 	}
-	for i := 1; i < 100000; i++ {
-		name := filepath.Join(dir, prefix+strconv.Itoa(i)+suffix)
-		f, err := os.OpenFile(name, os.O_RDWR|os.O_CREATE|os.O_EXCL, 0o600)
-		if err != nil {
-			if os.IsExist(err) {
-				continue
-			}
-			return nil, err
-		}
-		stamp(name)
-		return wrap(f, true), nil
+	tp, n := vrt.TempSeq()
+	name := filepath.Join(dir, prefix+tempName(tp, n)+suffix)
+	f, err := os.OpenFile(name, os.O_RDWR|os.O_CREATE|os.O_EXCL, 0o600)
+	if err != nil {
+		return nil, err
 	}
-	return nil, errors.New("vos: no free temp name")
+	stamp(name)
+	return wrap(f, true), nil
+}
+
+// tempName: the main thread's files are numbered 1, 2, ...; other threads carry their identity.
+func tempName(tp uint64, n uint32) string {
+	if tp == 0x9e3779b97f4a7c15 {
+		return strconv.Itoa(int(n))
+	}
+	return strconv.FormatUint(tp>>40, 16) + "-" + strconv.Itoa(int(n))
 }
 
 func MkdirTemp(dir, pattern string) (string, error) {
@@ -469,18 +472,12 @@ func MkdirTemp(dir, pattern string) (string, error) {
 	if _, _, err := pre("mkdirtemp", filepath.Join(dir, prefix+"*"+suffix), "", true, 0); err != nil {
 		return "", err
 	}
-	for i := 1; i < 100000; i++ {
-		name := filepath.Join(dir, prefix+strconv.Itoa(i)+suffix)
-		err := os.Mkdir(name, 0o700)
-		if err != nil {
-			if os.IsExist(err) {
-				continue
-			}
-			return "", err
-		}
-		return name, nil
+	tp, n := vrt.TempSeq()
+	name := filepath.Join(dir, prefix+tempName(tp, n)+suffix)
+	if err := os.Mkdir(name, 0o700); err != nil {
+		return "", err
 	}
-	return "", errors.New("vos: no free temp name")
+	return name, nil
 }
 
 func sortEntries(ents []fs.DirEntry) {
